@@ -653,6 +653,79 @@ fn region_roots(ctx: &Ctx) {
     }
 }
 
+/// Xen build: the Xen `MmapRegion::get_slice` (UNIX, grant in advance, grant on demand, foreign).
+#[cfg(feature = "xen")]
+fn region_roots(ctx: &Ctx) {
+    use crate::xen_emu::Emu;
+    use vm_memory::{GuestAddress, GuestMemory, GuestMemoryMmap, GuestMemoryRegion, GuestRegionMmap, MemoryRegionAddress, MmapRegion};
+    let emu = Emu::new(64);
+    for size in [1usize, 5, 4096, 4097] {
+        for kind in ["unix", "grant-in-advance", "grant-on-demand", "foreign"] {
+            let gr = match kind {
+                "unix" => GuestRegionMmap::<()>::from_range(GuestAddress(0x8000), size, None).unwrap(),
+                "grant-in-advance" => emu.grant_region(8, size, false).unwrap(),
+                "grant-on-demand" => emu.grant_region(8, size, true).unwrap(),
+                _ => emu.foreign_region(0x8000, size).unwrap(),
+            };
+            let mem = GuestMemoryMmap::from_regions(vec![gr]).unwrap();
+            let gr = mem.iter().next().unwrap();
+            let region: &MmapRegion<()> = gr;
+            // for an on-demand region the stored address is the bare offset (base pointer null)
+            let base = region.as_ptr() as usize;
+            let what: &'static str = match kind {
+                "unix" => "xen-unix",
+                "grant-in-advance" => "xen-grant-in-advance",
+                "grant-on-demand" => "xen-grant-on-demand",
+                _ => "xen-foreign",
+            };
+            let mut av: Vec<usize> = if size <= 8 { (0..=size + 1).collect() } else { vec![0, 1, 7, 8, 4094, 4095, 4096, 4097, 4098] };
+            av.extend_from_slice(&EXT);
+            av.extend_from_slice(&[usize::MAX - base, (usize::MAX - base).wrapping_add(1)]);
+            let mut t = 0u64;
+            for &o in &av {
+                let describe = move || (format!("C01/{}/derive", what), format!("size {} offset {}", size, o), json!({"size": size, "offset": o, "kind": what}));
+                crate::crash::guarded(ctx, &describe, || {
+                    for &c in &av {
+                        let want = fits(o, c, size);
+                        let calls: [(&str, Option<usize>); 3] = [
+                            ("MmapRegion::get_slice", VolatileMemory::get_slice(region, o, c).ok().map(|s| s.len())),
+                            ("GuestRegionMmap::get_slice", gr.get_slice(MemoryRegionAddress(o as u64), c).ok().map(|s| s.len())),
+                            ("GuestMemoryMmap::get_slice", mem.get_slice(GuestAddress(0x8000u64.wrapping_add(o as u64)), c).ok().map(|s| s.len())),
+                        ];
+                        for (name, r) in calls {
+                            t += 1;
+                            if name == "GuestMemoryMmap::get_slice" && (c == 0 || o >= size) {
+                                continue;
+                            }
+                            let ok = match (r, want) {
+                                (Some(l), true) => l == c,
+                                (None, false) => true,
+                                _ => false,
+                            };
+                            if !ok {
+                                let key = format!("C01/{}/{}/{}", what, name, if want { "refused-or-wrong-extent" } else { "accepted-request-that-does-not-fit" });
+                                ctx.fail(&key, &format!("size {} ({}, {}): {:?}", size, o, c, r), json!({"size": size, "offset": o, "count": c, "kind": what}));
+                            }
+                        }
+                    }
+                    t += 2;
+                    if region.get_ref::<u32>(o).is_ok() != fits(o, 4, size) {
+                        ctx.fail(&format!("C01/{}/MmapRegion::get_ref", what), &format!("size {} offset {}", size, o), json!({"size": size, "offset": o}));
+                    }
+                    let n = size / 2 + 1;
+                    if region.get_array_ref::<u16>(o, n).is_ok() != fits(o, n * 2, size) {
+                        ctx.fail(&format!("C01/{}/MmapRegion::get_array_ref", what), &format!("size {} offset {} n {}", size, o, n), json!({"size": size, "offset": o}));
+                    }
+                });
+            }
+            ctx.add_transitions(t);
+            ctx.add_traces(t);
+            ctx.add_states(1);
+            drop(mem);
+        }
+    }
+}
+
 pub fn run(tier: Tier, replay: Option<String>) -> i32 {
     let ctx = crate::new_ctx("C01", tier, "model_checking", &replay);
     let thorough = tier.thorough();
@@ -686,6 +759,9 @@ pub fn run(tier: Tier, replay: Option<String>) -> i32 {
         #[cfg(not(feature = "xen"))]
         s.spawn(move || region_roots(ctx));
     });
+    // the emulated devices are per thread: run the Xen region roots on this thread
+    #[cfg(feature = "xen")]
+    region_roots(&ctx);
     ctx.extra("deepest_derivation_chain", json!(*MAXD.lock().unwrap()));
     ctx.set_exhaustive(true);
     ctx.finish()
